@@ -136,32 +136,41 @@ class SgzLoader3d(SgzLoader):
         xl_first_chunk_offset = x // 4 * self.chunk_bytes
         xl_chunk_increment = self.chunk_bytes * self.shape_pad[1] // 4
         buffer = bytearray(self.chunk_bytes * self.shape_pad[0] // 4)
+        futures = []
         with cf.ThreadPoolExecutor(max_workers=self.n_workers) as executor:
             for chunk_num in range(self.shape_pad[0] // 4):
-                executor.submit(self._insert_chunk_into_buffer, buffer, chunk_num * self.chunk_bytes,
-                                xl_first_chunk_offset + chunk_num * xl_chunk_increment)
+                futures.append(executor.submit(self._insert_chunk_into_buffer, buffer, chunk_num * self.chunk_bytes,
+                                               xl_first_chunk_offset + chunk_num * xl_chunk_increment))
+        for future in futures:
+            future.result()
         return self._decompress(buffer, (self.shape_pad[0], self.blockshape[1], self.shape_pad[2]))
 
     @lru_cache(maxsize=1)
     def read_and_decompress_zslice_set(self, blocks_per_dim, zslice_first_block_offset, zslice_id):
         zslice_unit_in_block = (zslice_id % self.blockshape[2]) // 4
         buffer = bytearray(self.unit_bytes * (blocks_per_dim[0]) * (blocks_per_dim[1]))
+        futures = []
         with cf.ThreadPoolExecutor(max_workers=self.n_workers) as executor:
             for block_num in range((blocks_per_dim[0]) * (blocks_per_dim[1])):
-                executor.submit(self._insert_unit_into_buffer, buffer, block_num * self.unit_bytes,
-                                zslice_first_block_offset * self.block_bytes
-                                + zslice_unit_in_block * self.unit_bytes
-                                + block_num * self.chunk_bytes)
+                futures.append(executor.submit(self._insert_unit_into_buffer, buffer, block_num * self.unit_bytes,
+                                               zslice_first_block_offset * self.block_bytes
+                                               + zslice_unit_in_block * self.unit_bytes
+                                               + block_num * self.chunk_bytes))
+        for future in futures:
+            future.result()
         return self._decompress(buffer, (self.shape_pad[0], self.shape_pad[1], 4))
 
     @lru_cache(maxsize=1)
     def read_and_decompress_zslice_set_adv(self, blocks_per_dim, zslice_first_block_offset):
         sub_block_size_bytes = ((4 * 4 * self.blockshape[1]) * self.rate) // 8
         buffer = bytearray(self.block_bytes * blocks_per_dim[0] * blocks_per_dim[1])
+        futures = []
         with cf.ThreadPoolExecutor(max_workers=self.n_workers) as executor:
             for block_id in range(blocks_per_dim[0]*blocks_per_dim[1]):
-                executor.submit(self._distribute_chunk_into_buffer,
-                                buffer, block_id, blocks_per_dim, sub_block_size_bytes, zslice_first_block_offset)
+                futures.append(executor.submit(self._distribute_chunk_into_buffer, buffer, block_id, blocks_per_dim,
+                                               sub_block_size_bytes, zslice_first_block_offset))
+        for future in futures:
+            future.result()
         return self._decompress(buffer, (self.shape_pad[0], self.shape_pad[1], 4))
 
     def read_chunk_range(self, min_il, min_xl, min_z, il_units, xl_units, z_units):
@@ -189,12 +198,15 @@ class SgzLoader3d(SgzLoader):
         if multithreading:
             compressed_len = len(buffer) // il_units
             cube = np.zeros((il_units * 4, xl_units * 4, z_units * 4), dtype='float32')
+            futures = []
             with cf.ThreadPoolExecutor(max_workers=psutil.cpu_count(logical=False)) as executor:
                 for unit in range(il_units):
-                    executor.submit(self._decompress_into_array,
-                                    buffer[unit * compressed_len: (unit + 1) * compressed_len],
-                                    (4, xl_units * 4, z_units * 4),
-                                    cube[unit*4: unit*4 + 4, :, :])
+                    futures.append(executor.submit(self._decompress_into_array,
+                                                   buffer[unit * compressed_len: (unit + 1) * compressed_len],
+                                                   (4, xl_units * 4, z_units * 4),
+                                                   cube[unit*4: unit*4 + 4, :, :]))
+            for future in futures:
+                future.result()
             return cube
         else:
             return self._decompress(buffer, (il_units * 4, xl_units * 4, z_units * 4))
